@@ -437,6 +437,84 @@ def check_length_ratio(case, ctx: Ctx) -> None:
     ctx.label("valid" if valid else "invalid")
 
 
+# copies handed to other edges / neighbouring blocks ---------------------------------------------------
+
+
+@st.composite
+def copy_case(draw):
+    case = draw(invert_case())
+    case["preserve"] = draw(st.sampled_from(["c2c_expansion", "c2c_expansion", "start_size", "end_size"]))
+    # the edge the copy is used on: the same one, or one of another length (parallel edge of a distorted block)
+    case["L2_factor"] = draw(st.sampled_from([1.0, 1.0, 0.8, 1.1, 1.5]))
+    return case
+
+
+def check_copy(case, ctx: Ctx) -> None:
+    """Chop.copy_preserving(): what a parallel edge or a neighbouring block gets.  The reversed copy is judged against the
+    straight copy on the same length (same count, reciprocal expansion: "reversing a chop"), both against the chop's
+    count, and a size / ratio the user named and asked to preserve against the reference progression."""
+    g = dict(case["given"])
+    L = case["L"]
+    pres = case["preserve"]
+    pair = "+".join(SHORT[p] for p in case["pair"])
+    try:
+        base = Chop(**g, preserve=pres)
+        n, total = base.calculate(L)
+    except Exception:
+        ctx.label("rejected")
+        return
+    n, total = int(n), float(total)
+    facts = {"pair": pair, "given": g, "L": L, "preserve": pres, "n": n, "T": total}
+    L2 = L * case["L2_factor"]
+    facts["L2"] = L2
+    try:
+        n_s, t_s = base.copy_preserving(False).calculate(L2)
+    except Exception:
+        ctx.label("copy-rejected")
+        return
+    n_s, t_s = int(n_s), float(t_s)
+    facts.update(n_straight=n_s, T_straight=t_s)
+    try:
+        n_i, t_i = base.copy_preserving(True).calculate(L2)
+    except Exception as ex:
+        if in_core(case) and n >= 2 and 0.8 ** n <= t_s <= 1.25 ** n:  # count = 1 with a size: outside the core domain
+            raise Violation("reversed-copy-rejected", f"the straight copy is realised on length {L2}, the reversed one is "
+                            f"rejected: {type(ex).__name__}: {ex}", **facts) from None
+        ctx.label("reversed-copy-rejected-outside-core")
+        return
+    n_i, t_i = int(n_i), float(t_i)
+    facts.update(n_reversed=n_i, T_reversed=t_i)
+    if n_s != n or n_i != n:
+        raise Violation("copy-count", f"the chop has {n} cells, its copies {n_s} (straight) and {n_i} (reversed)", **facts)
+    for t in (t_s, t_i):
+        if not math.isfinite(t) or t <= 0:
+            raise Violation("expansion-not-finite-positive", f"copy's total expansion {t}", **facts)
+    if n < 2:
+        ctx.label("single-cell")
+        return
+    tol = (1e-6 + tau(n)) * n
+    if rel(t_i, 1.0 / t_s) > tol:
+        raise Violation("copy-reversal", f"straight copy expands by {t_s}, the reversed copy by {t_i}, expected {1 / t_s}", **facts)
+    if pres in g:
+        # the user named the preserved quantity: it is realised on the copy (count is fixed there), at the other end
+        # of the reversed copy
+        if pres == "c2c_expansion":
+            want = g[pres] ** (n - 1)
+            if rel(t_s, want) > tol and abs(g[pres] - 1) > 1e-6:
+                raise Violation("copy-preserved-ratio", f"c2c {g[pres]} with {n} cells: total {t_s}, expected {want}", **facts)
+        else:
+            for which, t in (("straight", t_s), ("reversed", t_i)):
+                first, last = gp_first_last(L2, n, t)
+                at_start = (pres == "start_size") == (which == "straight")
+                got = first if at_start else last
+                if rel(got, g[pres]) > tol:
+                    raise Violation("copy-preserved-size", f"{pres} {g[pres]} realised as {got} on the {which} copy "
+                                    f"({'first' if at_start else 'last'} cell, length {L2})", which=which, **facts)
+        ctx.label("preserved-is-named")
+    ctx.nt(t_s != 1.0)
+    ctx.label("preserve:" + pres, "same-length" if L2 == L else "other-length")
+
+
 _lr = st.one_of(
     st.sampled_from([-0.1, -1e-9, 0.0, 1e-6, 1e-3, 0.5, 1.0 - 1e-12, 1.0, 1.0 + 1e-9, 1.0 + 1e-6, 1.5]),
     st.floats(-0.5, 1.5),
@@ -455,7 +533,10 @@ CELLS.append(Cell("C03/invert", invert_case(), check_invert, 1500, 100000,
 CELLS.append(Cell("C03/grading-multi-inverted", grading_case(), check_grading, 600, 40000,
                   "1-4 sections; sections equal per-chop results; Grading.inverted is the reversed size sequence; "
                   "non-trivial: >= 2 sections, one graded"))
-CELLS.append(Cell("C03/length-ratio", st.fixed_dictionaries({"length_ratio": _lr, "L": _length, "count": st.integers(1, 20)}),
+CELLS.append(Cell("C03/copy-preserving", copy_case(), check_copy, 1500, 60000,
+                  "Chop.copy_preserving(inverted) on the same / another edge length: same count, (reciprocal) expansion, "
+                  "preserved size at the right end under the reference progression"))
+CELLS.append(Cell("C03/length-ratio",st.fixed_dictionaries({"length_ratio": _lr, "L": _length, "count": st.integers(1, 20)}),
                   check_length_ratio, 300, 5000, "length_ratio on both sides of 0 and 1: accepted iff in (0, 1]"))
 
 # thorough tier: coverage-guided campaigns (atheris / libFuzzer driving the same strategies and oracles), so that
